@@ -31,6 +31,8 @@ type followPeer struct {
 	failFirst int
 	calls     int
 	infoOf    *fx.Net // chain whose info this peer serves
+	// forgedLabel makes a peer that serves another chain's info put the PINNED chain's hash into the packet's hash field
+	forgedLabel []byte
 }
 
 // followNet is the PrivateGateway content handed to the beacon process: ChainInfo and SyncChain are answered by the scripted peers.
@@ -63,7 +65,11 @@ func (f *followNet) ChainInfo(_ context.Context, p dnet.Peer, _ *drand.ChainInfo
 	if pe == nil || pe.kind == "refuses" {
 		return nil, errors.New("connection refused (harness)")
 	}
-	return chain2.NewChainInfo(pe.infoOf.Group).ToProto(nil), nil
+	pkt := chain2.NewChainInfo(pe.infoOf.Group).ToProto(nil)
+	if pe.forgedLabel != nil {
+		pkt.Hash = append([]byte(nil), pe.forgedLabel...)
+	}
+	return pkt, nil
 }
 
 func (f *followNet) SyncChain(ctx context.Context, p dnet.Peer, in *drand.SyncRequest, _ ...dnet.CallOption) (chan *drand.BeaconPacket, error) {
@@ -220,9 +226,12 @@ func TestVerifC10Follow(t *testing.T) {
 				pe.failFirst = rapid.IntRange(1, 2).Draw(rt, "failFirst")
 				transient = true
 			}
-			if pe.kind != "honest" && rapid.IntRange(0, 3).Draw(rt, "foreignInfo") == 0 {
+			if pe.kind != "honest" && rapid.IntRange(0, 2).Draw(rt, "foreignInfo") == 0 {
 				pe.infoOf = fnet.other // serves the chain info of another chain
 				foreignInfo = true
+				if rapid.Bool().Draw(rt, "forgedHashLabel") {
+					pe.forgedLabel = chain2.NewChainInfo(fnet.chain.Group).Hash()
+				}
 			}
 			if pe.kind == "honest" {
 				honestAhead = true
@@ -235,6 +244,9 @@ func TestVerifC10Follow(t *testing.T) {
 			}
 			if pe.infoOf == fnet.other {
 				d += "(foreign-info)"
+				if pe.forgedLabel != nil {
+					d += "(labelled-with-pinned-hash)"
+				}
 			}
 			if strings.HasPrefix(pe.kind, "closes") || pe.kind == "bad-signature" || pe.kind == "relabelled" || pe.kind == "other-chain" {
 				d += fmt.Sprintf("@%d", pe.k)
